@@ -274,6 +274,16 @@ def prefilter(ctx, res):
         si = [i for i, it in enumerate(tr)
               if it[0] == "call" and it[1] == "PyDict_SetItem"]
         if not si:
+            # an assignment that validated its value and reports success
+            # must have stored it (a "nothing changed" shortcut is wrong for
+            # values that are only visible through delegation: the first
+            # local assignment of a PrototypedFrom attribute stores nothing)
+            if p.outcome[0] == "RETURN" and p.outcome[1] == "0" \
+                    and sc.vstate == "ok":
+                viol("success-without-store", p.lines[-1],
+                     f"the assignment branch of {fname} returns success on a "
+                     f"path that never stores the validated value in the "
+                     f"instance dictionary", p)
             continue
         # the store of the *assigned* value: not the materialisation of the
         # default that may precede it
@@ -1018,4 +1028,52 @@ def undo_on_failure(ctx, res):
                    f"function reports the failure without putting the "
                    f"previous entry back: the operation raised *and* changed "
                    f"the object", _plines(bad[2]) if bad else None)
+    res.floor(1)
+
+
+# ---------------------------------------------------------------------------
+# C05.items-event-delivered: `trait_items_event` (C: _has_traits_items_event)
+# is the single channel through which List / Dict / Set in-place mutations
+# reach `<name>_items` listeners - trait-level, object-level (anytrait) and
+# static ones alike.  Whether anybody listens is decided by the event trait's
+# setter (setattr_event looks at both notifier lists), not here: every path
+# that reports success has handed the event to the installed trait's setter.
+
+@rule("C05.items-event-delivered", ["C05", "C06", "C07"],
+      "every successful path of trait_items_event hands the event object to "
+      "the `<name>_items` trait's setter (no shortcut that looks at one "
+      "notifier list only)")
+def items_event_delivered(ctx, res):
+    fname = "_has_traits_items_event"
+    paths, facts, g = paths_of(ctx, fname)
+    ok_paths = 0
+    bad = None
+    def always_null(text):
+        m = re.fullmatch(r"(\w+)\(.*\)", text)
+        if not m or not facts.has_func(m.group(1)):
+            return False
+        ps_, _a, _b = paths_of(ctx, m.group(1))
+        rets = [q.outcome[1] for q in ps_ if q.outcome[0] == "RETURN"]
+        return bool(rets) and all(r in ("0", "NULL") for r in rets)
+    for p in paths:
+        if p.outcome[0] != "RETURN" or p.outcome[1] in ("0", "NULL") \
+                or always_null(p.outcome[1]):
+            continue
+        ok_paths += 1
+        fired = [it for it in p.trace if it[0] == "call"
+                 and it[1] == "->setattr"]
+        if not fired and bad is None:
+            bad = p
+    if ok_paths == 0:
+        raise AnalysisError(f"{fname}: no successful path")
+    res.instance(fname, facts.loc(facts.func(fname)), success_paths=ok_paths)
+    atoms = [(a[1][:50], a[2]) for a in bad.trace if a[0] == "atom"][-3:] \
+        if bad else []
+    res.oblige(bad is None, f"{fname}:success-without-event",
+               f"{CREL}:{bad.lines[-1]}" if bad else "",
+               f"{fname} returns success without calling the items trait's "
+               f"setter (last conditions: {atoms}): listeners that are not "
+               f"in the list that was consulted - e.g. an object-level "
+               f"`on_trait_change(handler)` - never see the in-place change",
+               _plines(bad) if bad else None)
     res.floor(1)
